@@ -12,7 +12,11 @@ func (vc *VC) mapHeaps(mt *types.Map) (string, string, string, string) {
 	ks, vs := vc.sortOf(mt.Key()), vc.sortOf(mt.Elem())
 	hv := "Hm_" + sanitize(ks) + "_" + sanitize(vs)
 	hp := "Hmp_" + sanitize(ks)
-	vc.ensureHeap(hv, "(Array "+ks+" "+vs+")", nil, false)
+	if vc.heapMapKey == nil {
+		vc.heapMapKey = map[string]string{}
+	}
+	vc.heapMapKey[hv] = ks
+	vc.ensureHeap(hv, "(Array "+ks+" "+vs+")", mt.Elem(), false)
 	vc.ensureHeap(hp, "(Array "+ks+" Bool)", nil, false)
 	return hv, hp, ks, vs
 }
